@@ -15,7 +15,7 @@ import Mathlib.Tactic.Linarith
 
 Only `PermSpec`/`PermEmbed` (C02) and the `probMatrix` shape lemmas of `RepexC03Perm` are used.
 -/
-namespace Infretis.Repex
+namespace Infretis.Repex.Frac
 open Infretis.Perm
 
 /-! ### column totals -/
@@ -723,4 +723,4 @@ theorem probMatrix_zero_of_weight_zero (W : Mat) (locks : List Bool) (hW : W.len
     · exact probMatrix_zero_of_not_idle W locks hW i c (Or.inr hc)
   · exact probMatrix_zero_of_not_idle W locks hW i c (Or.inl hi)
 
-end Infretis.Repex
+end Infretis.Repex.Frac
